@@ -165,6 +165,10 @@ def main():
                 continue
         for o in failed:
             k = okey(o)
+            if g.get('focus') and o['cls'] == 'assertion' and not any(_re.search(rx, o['desc']) for rx in g['focus']):
+                # group shared with another property: assertions outside this property's focus are decided (and reported) there
+                ge.setdefault('out_of_focus_failures', []).append(o['desc'][:120])
+                continue
             tagk = 'property=%s group=%s obligation=%s' % (prop, g['name'], k)
             if any(tagk == kn for kn in known):
                 known_hits.append(tagk)
